@@ -83,6 +83,14 @@ class _E1(ast.NodeTransformer):
 
     def visit_Compare(self, n):
         self.generic_visit(n)
+        # a < b < c  ==  a < b and b < c   (b evaluated once; b has no effects)
+        if len(n.ops) > 1 and all(_pure_expr(c) for c in n.comparators[:-1]):
+            parts = []
+            left = n.left
+            for op, right in zip(n.ops, n.comparators):
+                parts.append(self.visit_Compare(ast.copy_location(ast.Compare(left=clone(left), ops=[op], comparators=[clone(right)]), n)))
+                left = right
+            return self.visit_BoolOp(ast.copy_location(ast.BoolOp(op=ast.And(), values=parts), n))
         # len(x) is a non-negative integer: len(x) > 0, 0 < len(x), len(x) >= 1  ==  len(x) != 0 ;  len(x) < 1, len(x) <= 0  ==  len(x) == 0
         if len(n.ops) == 1:
             a, b, op = n.left, n.comparators[0], n.ops[0]
@@ -220,6 +228,15 @@ class _E1(ast.NodeTransformer):
                 if dt and (vi or (isinstance(dt[0], ast.Attribute) and dt[0].attr.startswith('float'))):
                     z = ast.Call(func=ast.Attribute(value=ast.Name(id='np', ctx=ast.Load()), attr='zeros', ctx=ast.Load()), args=[n.args[0]],
                                  keywords=[ast.keyword(arg='dtype', value=_dtype_canon(dt[0]))])
+                    neg = None
+                    if isinstance(v, ast.UnaryOp) and isinstance(v.op, ast.USub) and isinstance(v.operand, ast.Constant):
+                        neg = v.operand
+                    elif isinstance(v, ast.Constant) and type(v.value) in (int, float) and v.value < 0:
+                        neg = ast.Constant(value=-v.value)
+                    if neg is not None:
+                        dc = _dtype_canon(dt[0])
+                        if isinstance(dc, ast.Attribute) and (dc.attr.startswith('int') or dc.attr.startswith('float')):
+                            return ast.copy_location(ast.BinOp(left=z, op=ast.Sub(), right=neg), n)
                     return ast.copy_location(ast.BinOp(left=z, op=ast.Add(), right=v), n)
             if f.attr in ('array', 'asarray') and n.args and isinstance(n.args[0], ast.Tuple):
                 n.args[0] = ast.copy_location(ast.List(elts=n.args[0].elts, ctx=ast.Load()), n.args[0])
@@ -646,11 +663,15 @@ def _copy_prop(fn):
                     a, b = st.targets[0].id, st.value.id
                     if a == b or a in params or stores.get(a) != 1:
                         continue
-                    if not ((b in params and stores.get(b, 0) == 0) or stores.get(b) == 1):
-                        continue
                     # the copy must dominate its uses: only top-level statements of the function body are considered
                     if owner is not fn:
                         continue
+                    if not ((b in params and stores.get(b, 0) == 0) or stores.get(b) == 1):
+                        # b is bound several times: fine when none of those bindings comes after the copy
+                        later = body[body.index(st) + 1:]
+                        if any(isinstance(x, ast.Name) and x.id == b and isinstance(x.ctx, (ast.Store, ast.Del)) for r in later for x in ast.walk(r)) \
+                                or stores.get(b, 0) >= 100 or any(isinstance(x, (ast.Global, ast.Nonlocal)) and b in x.names for x in ast.walk(fn)):
+                            continue
                     for x in ast.walk(fn):
                         if isinstance(x, ast.Name) and x.id == a and isinstance(x.ctx, ast.Load):
                             x.id = b
@@ -1137,26 +1158,56 @@ def _split_toplevel_reuse(fn):
 
 
 def _ssa_split(fn):
-    """A name bound by several plain assignments is split into one name per assignment when every read of it is reached by exactly
-    one of them (reaching definitions over the function's flow graph): a scratch name re-used for unrelated values becomes several
-    names, wherever the assignments are."""
+    """A local name is split into one name per web: bindings that some read may see alternatively belong to one web (reaching
+    definitions over the function's flow graph; an augmented assignment reads what it re-binds).  A scratch name re-used for
+    unrelated values becomes several names, wherever and however (assignment, unpacking, loop target, augmented assignment) it is
+    bound.  Names bound in any other way (with, except, import, walrus, comprehension, global) are left alone."""
     from .cfg import CFG, ReachingDefs
     from .astutil import link_parents
-    plain = {}
-    other = set()
     params = {a.arg for a in fn.args.posonlyargs + fn.args.args + fn.args.kwonlyargs}
+    if fn.args.vararg:
+        params.add(fn.args.vararg.arg)
+    if fn.args.kwarg:
+        params.add(fn.args.kwarg.arg)
+    sites = {}            # name -> [(def statement, the Name node stored)]
+    handled = set()
+
+    def targets_of(t):
+        if isinstance(t, ast.Name):
+            return [t]
+        if isinstance(t, (ast.Tuple, ast.List)):
+            out = []
+            for e in t.elts:
+                if isinstance(e, ast.Starred):
+                    e = e.value
+                out.extend(targets_of(e))
+            return out
+        return []
     for n in ast.walk(fn):
-        if isinstance(n, ast.Assign) and len(n.targets) == 1 and isinstance(n.targets[0], ast.Name):
-            plain.setdefault(n.targets[0].id, []).append(n)
-    plain_targets = {id(st.targets[0]) for lst in plain.values() for st in lst}
+        if isinstance(n, ast.Assign):
+            for t in n.targets:
+                for x in targets_of(t):
+                    sites.setdefault(x.id, []).append((n, x))
+                    handled.add(id(x))
+        elif isinstance(n, ast.AugAssign) and isinstance(n.target, ast.Name):
+            sites.setdefault(n.target.id, []).append((n, n.target))
+            handled.add(id(n.target))
+        elif isinstance(n, ast.For):
+            for x in targets_of(n.target):
+                sites.setdefault(x.id, []).append((n, x))
+                handled.add(id(x))
+    other = set()
     for n in ast.walk(fn):
-        if isinstance(n, ast.Name) and isinstance(n.ctx, (ast.Store, ast.Del)) and id(n) not in plain_targets:
+        if isinstance(n, ast.Name) and isinstance(n.ctx, (ast.Store, ast.Del)) and id(n) not in handled:
             other.add(n.id)
         elif isinstance(n, (ast.Global, ast.Nonlocal)):
             other |= set(n.names)
         elif isinstance(n, ast.ExceptHandler) and n.name:
             other.add(n.name)
-    cands = [nm for nm, lst in plain.items() if len(lst) >= 2 and nm not in other and nm not in params]
+        elif isinstance(n, (ast.FunctionDef, ast.AsyncFunctionDef, ast.ClassDef, ast.Lambda)) and n is not fn:
+            # nested scopes read the enclosing names late: leave every name they mention alone
+            other |= {x.id for x in ast.walk(n) if isinstance(x, ast.Name)}
+    cands = [nm for nm, lst in sites.items() if len({id(st) for st, _ in lst}) >= 2 and nm not in other and nm not in params]
     if not cands:
         return False
     link_parents(fn)
@@ -1169,23 +1220,47 @@ def _ssa_split(fn):
     k = 0
     for nm in cands:
         uses = [x for x in ast.walk(fn) if isinstance(x, ast.Name) and x.id == nm and isinstance(x.ctx, ast.Load)]
-        by_def = {}
+        parent = {id(st): id(st) for st, _ in sites[nm]}
+
+        def find(a):
+            while parent[a] != a:
+                parent[a] = parent[parent[a]]
+                a = parent[a]
+            return a
+        use_def = {}
         ok = True
         for u in uses:
-            ds = rd.reaching(nm, u)
-            real = [d for d, v in ds if d is not None]
-            if len(real) != 1 or len(ds) != 1 or not isinstance(real[0], ast.Assign):
+            real = [d for d, v in rd.reaching(nm, u) if d is not None]
+            if not real or any(id(d) not in parent for d in real):
                 ok = False
                 break
-            by_def.setdefault(id(real[0]), []).append(u)
+            for d in real[1:]:
+                parent[find(id(d))] = find(id(real[0]))
+            use_def[id(u)] = id(real[0])
+        if ok:
+            for st, x in sites[nm]:
+                if isinstance(st, ast.AugAssign):
+                    real = [d for d, v in rd.reaching(nm, st) if d is not None]
+                    if not real or any(id(d) not in parent for d in real):
+                        ok = False
+                        break
+                    for d in real:
+                        parent[find(id(d))] = find(id(st))
         if not ok:
             continue
-        for st in plain[nm]:
+        webs = {}
+        for st, x in sites[nm]:
+            webs.setdefault(find(id(st)), []).append(x)
+        if len(webs) < 2:
+            continue
+        names = {}
+        for root, xs in webs.items():
             k += 1
-            new = '%s__s%d' % (nm, k)
-            st.targets[0].id = new
-            for u in by_def.get(id(st), []):
-                u.id = new
+            names[root] = '%s__s%d' % (nm, k)
+            for x in xs:
+                x.id = names[root]
+        for u in uses:
+            u.id = names[find(use_def[id(u)])]
         changed = True
     return changed
 
@@ -1320,6 +1395,20 @@ def _forward_subst(fn, module_exprs=None):
             if any((x in mut) for x in free):
                 local_only.add(nm)
             defs[nm] = n
+    # a temporary defined from another temporary depends on whatever that one depends on (the decision must not depend on which of
+    # the two is substituted first)
+    tfree = {nm: {x.id for x in ast.walk(st.value) if isinstance(x, ast.Name)} for nm, st in defs.items()}
+    grown = True
+    while grown:
+        grown = False
+        for nm in tfree:
+            for x in list(tfree[nm]):
+                if x in tfree and not tfree[x] <= tfree[nm]:
+                    tfree[nm] |= tfree[x]
+                    grown = True
+    for nm in tfree:
+        if tfree[nm] & mut:
+            local_only.add(nm)
     # Evaluation must not move across effects: between the definition and the first evaluation of a use (on every path) there may
     # only be effect-free statements.  Later re-evaluations of a pure expression over stable operands give the same value and cannot
     # newly raise.
@@ -1408,7 +1497,7 @@ def _forward_subst(fn, module_exprs=None):
         if nm in local_only:
             # operands are re-bound somewhere: every use must be in a simple statement of the same block (or a compound header), and
             # nothing from the definition up to the last use may touch an operand (the last using statement may, after evaluating)
-            free = {x.id for x in ast.walk(st.value) if isinstance(x, ast.Name)} & mut
+            free = tfree[nm] & mut
             using = [k for k, r in enumerate(rest) if uses(r, nm)]
             ok_local = inside == total and bool(using)
             if ok_local:
@@ -1796,3 +1885,12 @@ def canon_expr(e):
     """A normalised private copy of an expression (comparison direction, folded negations, De Morgan, spellings): for rules that match
     the shape of a test."""
     return _E1(None).visit(clone(e))
+
+
+def canon_block(stmts, callee_info=None):
+    """The statements of a block in normal form (as a list of statement nodes): for rules that compare two blocks for isomorphism."""
+    f = ast.FunctionDef(name='__block__', args=ast.arguments(posonlyargs=[], args=[], vararg=None, kwonlyargs=[], kw_defaults=[],
+                                                               kwarg=None, defaults=[]),
+                        body=[clone(s) for s in stmts], decorator_list=[], returns=None, type_comment=None, type_params=[])
+    ast.fix_missing_locations(f)
+    return normal_form(f, callee_info).body
